@@ -149,6 +149,7 @@ type loopInfo struct {
 	nextPre string
 	entered bool
 	rangeIdx *ssa.Alloc // the hidden index cell of a range-over-slice / counted loop
+	ranged   ssa.Value  // the collection a range loop walks (evaluated once, before the loop)
 	touched  []string   // references of address-taken locals the loop assigns (they may change without being named)
 	pre      *State     // state on entry to the loop (for atloop(e))
 }
@@ -304,9 +305,17 @@ func (g *FnGen) typeInv(s *State, v string, t types.Type, depth int) string {
 			return and(app("<=", lo, v), app("<=", v, hi))
 		}
 	case *types.Slice:
-		return and(app(">=", app("s-off", v), "0"), app(">=", app("s-len", v), "0"),
+		base := and(app(">=", app("s-off", v), "0"), app(">=", app("s-len", v), "0"),
 			app("<=", app("s-len", v), app("s-cap", v)), app("<", app("rid", app("s-arr", v)), s.next),
 			implies(eq(app("s-arr", v), nilRef), eq(app("s-cap", v), "0")))
+		// the elements are values of the element type (integer fields within their ranges)
+		if depth == 0 && g.hasIntCells(u.Elem(), 0) {
+			ev := g.load(s, app("elemref", v, "tj"), u.Elem())
+			if inv := g.c.valueTypeInv(ev, u.Elem(), 1); inv != "true" {
+				base = and(base, fmt.Sprintf("(forall ((tj Int)) (! (=> (and (<= 0 tj) (< tj (s-len %s))) %s) :pattern ((elemref %s tj))))", v, inv, v))
+			}
+		}
+		return base
 	case *types.Pointer, *types.Map, *types.Chan:
 		return app("<", app("rid", v), s.next)
 	case *types.Interface:
@@ -321,6 +330,27 @@ func (g *FnGen) typeInv(s *State, v string, t types.Type, depth int) string {
 		}
 	}
 	return "true"
+}
+
+// hasIntCells: does a value of type t contain integer cells (directly or in nested structs)?
+func (g *FnGen) hasIntCells(t types.Type, depth int) bool {
+	if depth > 3 {
+		return false
+	}
+	if g.c.reg.sortOf(t) == "Int" {
+		if b, ok := t.Underlying().(*types.Basic); ok && b.Info()&types.IsInteger != 0 {
+			return true
+		}
+		return false
+	}
+	if si := g.c.reg.structOf(t); si != nil {
+		for _, f := range si.fields {
+			if g.hasIntCells(f.typ, depth+1) {
+				return true
+			}
+		}
+	}
+	return false
 }
 
 func intRange(k types.BasicKind) (string, string) {
@@ -572,6 +602,15 @@ func (g *FnGen) findLoops() {
 				if a, ok := u.X.(*ssa.Alloc); ok && a.Comment == "rangeindex" {
 					g.loops[h].rangeIdx = a
 					break
+				}
+			}
+		}
+		for _, ins := range h.Instrs {
+			if b, ok := ins.(*ssa.BinOp); ok && b.Op == token.LSS {
+				if c, ok := b.Y.(*ssa.Call); ok {
+					if bi, ok := c.Call.Value.(*ssa.Builtin); ok && bi.Name() == "len" && len(c.Call.Args) == 1 {
+						g.loops[h].ranged = c.Call.Args[0]
+					}
 				}
 			}
 		}
@@ -1602,11 +1641,21 @@ func (g *FnGen) runHooks(s *State, ins ssa.Instruction, recv string, recvT types
 	if !ok {
 		return
 	}
+	nth := 0
 	for _, h := range g.fc.CallHooks {
 		if h.Callee != co.key || h.K != co.k {
 			continue
 		}
+		nth++
 		env := g.newEnv(s, g.entry)
+		// inside a loop: the innermost enclosing loop gives iter / ranged / atloop their meaning
+		var inner *loopInfo
+		for _, li := range g.enclosingLoops() {
+			if inner == nil || len(li.blocks) < len(inner.blocks) {
+				inner = li
+			}
+		}
+		env.loop = inner
 		if recv != "" {
 			env.vars["recv"] = TVal{term: recv, ty: Ty{sort: g.c.reg.sortOf(recvT), gt: recvT}}
 		}
@@ -1624,7 +1673,7 @@ func (g *FnGen) runHooks(s *State, ins ssa.Instruction, recv string, recvT types
 		}
 		if h.Ghost == "" {
 			for j, c := range env.conjuncts(h.E) {
-				g.addObl(s, "assert", fmt.Sprintf("assert@%s#%d[%d]", co.key, co.k, j+1), h.Src, h.Where, c)
+				g.addObl(s, "assert", fmt.Sprintf("assert@%s#%d[%d.%d]", co.key, co.k, nth, j+1), h.Src, h.Where, c)
 				g.assume(s, c)
 			}
 			continue
